@@ -19,6 +19,8 @@
   counterexamples then), are now theorems; the former counterexample inputs are kept as `fixed_*` examples.
 -/
 import TypedpyModel.Lemmas.ConvertStep
+import TypedpyModel.Lemmas.AliasC17
+import TypedpyModel.Generated.AliasingC17
 namespace Typedpy.C17
 open Typedpy.Convert
 
@@ -315,6 +317,73 @@ theorem convert_nonpositive_characterised (ms : List Mapping) (kvs : Obj) (v : I
     (hv : get "version" kvs = some (.int v)) :
     convertDict (.obj kvs) ms = runSteps (pySliceFrom (v - 1) ms) v (.obj kvs) := by
   simp [convertDict, startVersion, hv, versionInt]
+
+/-! ### "leaves its input intact", proved on the heap
+
+  `convert_pure` above is true by construction of the value-level model.  The statements below are about a
+  heap-level model of the same code (Sem/AliasC17.lean: `hConvertDict` / `hConvert` over the ownership model of C19,
+  Sem/Alias.lean — cells with identity, `copy.deepcopy` as `deepCopy`, `out_dict[k] = …` / `del` as writes into the
+  cell `out_dict` refers to, `deep_get` handing out references, user functions as arbitrary heap transformers).
+  What the code does at its three copy sites (`convert_dict`: `copy.deepcopy(the_dict)`; `_convert`:
+  `copy.deepcopy(mapped_dict)`; Constant: `copy.deepcopy(v())`) is a parameter `S : Sites` of that model; the value
+  the source has TODAY is regenerated on every run by extract/aliasing_c17.py into Generated/AliasingC17.lean
+  (`Gen.sites`, `Gen.paramWrites`, `Gen.nestedReadsInput`) and the obligations `*_today` are re-decided.
+  User functions are restricted by the capability discipline `FnOk` only (allocate; return an atom, something new
+  or something reachable from the arguments) — they may even mutate what they were given. -/
+
+/-- the copy sites of versioned_mapping.py as regenerated from the source all copy -/
+theorem sites_copy_today : AliasC17.Gen.sites.AllCopy := by decide
+
+/-- no statement of `_convert` / `convert_dict` writes through a parameter object (or an un-copied alias of one) -/
+theorem no_param_writes_today : AliasC17.Gen.paramWrites = [] := by decide
+
+/-- the `._mapper` branch stores only recursive conversions (copies) of the content it reads from its input -/
+theorem nested_reads_input_today : AliasC17.Gen.nestedReadsInput = true := by decide
+
+/-- **convert_input_intact**: for every history (any nesting, any `FnOk` user functions), every heap and document:
+    `convert_dict` changes no cell that existed before the call (the caller's document, the mapping objects, the
+    Constant values) — also when it raises midway; the result lives entirely in cells allocated by the call, so no
+    cell reachable from it is reachable from any pre-existing root; whatever the caller later does to the result
+    cannot change anything that existed before, and whatever it does to old objects cannot change the result -/
+theorem convert_input_intact (A : AliasC17.Atoms) {S : AliasC17.Sites} (hS : S.AllCopy) (fuel : Nat)
+    (ver : Nat → Int) (ms : List AliasC17.HMapping) (hm : ∀ m, m ∈ ms → AliasC17.mapFnsOk m) :
+    AliasC17.IntactFor (AliasC17.hConvertDict A S fuel ver ms) :=
+  AliasC17.hConvertDict_intact A hS fuel ver ms hm
+
+/-- … with the copy sites the source has today -/
+theorem convert_input_intact_today (A : AliasC17.Atoms) (fuel : Nat) (ver : Nat → Int)
+    (ms : List AliasC17.HMapping) (hm : ∀ m, m ∈ ms → AliasC17.mapFnsOk m) :
+    AliasC17.IntactFor (AliasC17.hConvertDict A AliasC17.Gen.sites fuel ver ms) :=
+  AliasC17.hConvertDict_intact A sites_copy_today fuel ver ms hm
+
+/-- the same for one `_convert` (nested `._mapper` conversion included) -/
+theorem step_input_intact_today (A : AliasC17.Atoms) (fuel : Nat) (m : AliasC17.HMapping)
+    (hm : AliasC17.mapFnsOk m) : AliasC17.IntactFor (AliasC17.hConvert A AliasC17.Gen.sites fuel m) :=
+  AliasC17.hConvert_intact A sites_copy_today.2.1 sites_copy_today.2.2 fuel m hm
+
+/-- unfolded: the converted document shares no cell with anything the caller held before -/
+theorem convert_result_disjoint (A : AliasC17.Atoms) {S : AliasC17.Sites} (hS : S.AllCopy) (fuel : Nat)
+    (ver : Nat → Int) (ms : List AliasC17.HMapping) (hm : ∀ m, m ∈ ms → AliasC17.mapFnsOk m)
+    (h : Alias.Heap) (doc : Alias.Item) (h' : Alias.Heap) (res : Alias.Item)
+    (e : AliasC17.hConvertDict A S fuel ver ms h doc = (h', some res)) (cb : Alias.ClosedBelow h.next h)
+    (K : List Nat) (hK : ∀ r, r ∈ K → r < h.next) :
+    ∀ b, Alias.Held h' (AliasC17.roots res) b → (h.next ≤ b ∧ b < h'.next) ∧ ¬ Alias.Held h' K b :=
+  AliasC17.hConvertDict_disjoint A hS fuel ver ms hm h doc h' res e cb K hK
+
+/-- non-vacuity / the hypotheses are needed (kernel-evaluated on a small heap): with all three sites copying the
+    call succeeds, leaves the old cells alone and shares nothing; without the `deepcopy` in `_convert` a
+    Constant/Deleted mapping writes into the caller's document; without the `deepcopy` of the Constant's value the
+    result contains the Constant's own list; a user function returning a global object shares it -/
+theorem heap_examples :
+    ((AliasC17.exRun AliasC17.allDeep).2.isSome = true
+      ∧ Alias.sameBelow AliasC17.exHeap.next AliasC17.exHeap (AliasC17.exRun AliasC17.allDeep).1 = true
+      ∧ Alias.sharedPaths 8 (AliasC17.exRun AliasC17.allDeep).1 AliasC17.exOld []
+          (AliasC17.resOf (AliasC17.exRun AliasC17.allDeep)) = [])
+    ∧ ¬ Alias.Frame AliasC17.exHeap
+        (AliasC17.hConvert AliasC17.exAtoms { AliasC17.allDeep with step := .alias } 9
+          [("k", .const (.atom 7)), ("name", .deleted)] AliasC17.exHeap (.ref 0)).1 :=
+  ⟨⟨AliasC17.example_all_deep.1, AliasC17.example_all_deep.2.2.1, AliasC17.example_all_deep.2.2.2.1⟩,
+    AliasC17.step_alias_breaks_frame⟩
 
 /-! ### `Versioned` deserialization and construction -/
 
